@@ -31,14 +31,14 @@ DSKey(e) ==
      ELSE IF e.isnil THEN "ds/nil-for-defined-type"
      ELSE IF ~IsHex(e.digest) THEN "ds/digest-not-hex"
      ELSE IF e.dstag # KeyTag(rd) THEN "ds/fields"
-     ELSE IF EmitX([i |-> l, kind |-> "ds", hash |-> hn, input |-> DSInput(p.labels, rd), digest |-> HexDec(e.digest)])
+     ELSE IF EmitX([i |-> l, kind |-> "ds", key |-> DSDigestKey(hn, e.owner), hash |-> hn, input |-> DSInput(p.labels, rd), digest |-> HexDec(e.digest)])
           THEN "" ELSE "trace/emit"
 
 HashKey(e) ==
   LET p == Parse(e.name) IN
   IF p.st # "ok" \/ ~p.fq THEN "trace/name-not-a-name"
   ELSE IF ~IsB32(e.hash) \/ Len(e.hash) # 32 THEN "nsec3/hashname-format"
-  ELSE IF EmitX([i |-> l, kind |-> "n3", key |-> "nsec3/hashname", plan |-> NSEC3Plan(p.labels, e.salt, e.iter), digest |-> B32Dec(e.hash)])
+  ELSE IF EmitX([i |-> l, kind |-> "n3", key |-> HashNameKey(e.name, FALSE), plan |-> NSEC3Plan(p.labels, e.salt, e.iter), digest |-> B32Dec(e.hash)])
        THEN "" ELSE "trace/emit"
 
 CoverKey(e) ==
@@ -77,8 +77,10 @@ KLStep(e) ==
   \/ e.ev = "kl.reset"  /\ hs' = <<>> /\ ts' = <<>> /\ ss' = <<>> /\ hist' = <<>>
   \/ e.ev = "kl.gen"    /\ KL!Generate(e.key)
   \/ e.ev = "kl.export" /\ KL!Export(e.h)
-  \/ e.ev = "kl.import" /\ KL!Import(e.t, e.api)
-  \/ e.ev = "kl.sign"   /\ KL!Sign(e.h)
+  \/ e.ev = "kl.import" /\ ~e.failed /\ KL!Import(e.t, e.api)
+  \/ e.ev = "kl.import" /\ e.failed  /\ e.t \in 1..Len(ts) /\ Bad("keylife/import-fails:" \o e.alg) /\ UNCHANGED klvars   \* importing an exported text always succeeds
+  \/ e.ev = "kl.sign"   /\ ~e.failed /\ KL!Sign(e.h)
+  \/ e.ev = "kl.sign"   /\ e.failed  /\ e.h \in 1..Len(hs) /\ Bad("keylife/sign-fails:" \o e.alg) /\ UNCHANGED klvars
   \/ e.ev = "kl.verify" /\ KL!Verify(e.key, e.s)
                         /\ IF e.ok = KL!VerifyResult(e.key, e.s) THEN TRUE
                            ELSE Bad(IF e.ok THEN "keylife/verify-accepts-other-key:" \o e.alg ELSE "keylife/verify-rejects-own-key:" \o e.alg)
